@@ -22,8 +22,10 @@ from .. import dtsupport
 # conversion error must carry that very exception object
 RK, RI = 'vf.dtsupport.remember_key', 'vf.dtsupport.remember_int'
 SK = gen.schema(keytype=RK,
-                types=[gen.stype('ta', [gen.key('ka', RI), gen.key('+', attr='any', dt=RI)], keytype=RK)],
-                items=[gen.multisection('ta', '*', attr='xs'), gen.key('kt', RI), gen.key('+', attr='any')])
+                types=[gen.stype('ta', [gen.key('ka', RI), gen.key('kn', 'vf.dtsupport.nested_conv'),
+                                        gen.key('+', attr='any', dt=RI)], keytype=RK)],
+                items=[gen.multisection('ta', '*', attr='xs'), gen.key('kt', RI),
+                       gen.key('kn', 'vf.dtsupport.nested_conv'), gen.key('+', attr='any')])
 XML = dict(_XML01)
 VIEWS = dict(_VIEWS01)
 XML['SK'] = gen.render(SK)
@@ -89,6 +91,7 @@ def _layouts(tier):
         # ---- application key type / datatype: the error carries the very exception they raised
         ('SK', main(['kt 5', '<ta n1>', [['x', 2], ' ', V1], '  ka 1', '</ta>'])),
         ('SK', main([[['x', 2], ' ', V1], '<ta/>'])),
+        ('SK', main(['# c', ['kn ', V2], '<ta>', ['kn ', V1], '</ta>'])),
         ('SK', [['main.conf', ['kt 5', '<ta>', '%include inc.conf', '</ta>']],
                 ['inc.conf', ['', ['ka ', V2], [['x', 2], ' 7']]]]),
     ]
@@ -156,6 +159,14 @@ class C08(Harness):
 
     def units(self, tier):
         us = [{'schema': s, 'files': f} for s, f in _layouts(tier)]
+        # an %include whose reference is refused while it is joined with the includer's URL (before any
+        # I/O): the culprit is the directive's own line; given explicitly, the text oracle does not read URLs
+        for ref in ('http://[::1/x.conf', '//[localhost]/x.conf'):
+            us.append({'schema': 'S2', 'files': [['main.conf', ['kt 5', ['zz ', V1], '%include ' + ref, 'zz top']]],
+                       'badref': [0, 3]})
+            us.append({'schema': 'S2', 'files': [['main.conf', ['kt 5', '<ta n1>', '%include sub/inc.conf', '</ta>']],
+                                                 ['sub/inc.conf', ['', ['ka ', V1], '', '%include ' + ref]]],
+                       'badref': [1, 4]})
         # the same single-file layouts loaded from a file object WITHOUT a URL: line numbers must be
         # just as right; there is no URL to report
         for s, f in _layouts(tier):
@@ -243,6 +254,10 @@ class C08(Harness):
         return flat
 
     def expect(self, unit, inp, real):
+        if 'badref' in unit:
+            fi, ln = unit['badref']
+            # (values are converted when their section is closed - after the directive was refused)
+            return ('reject', 'config', ln, P.BASE + unit['files'][fi][0], None)
         flat = self.flatten(self.files(unit, inp))
         lines = [x[2] for x in flat]
         g = G.parse(lines, 'record', want_lines=True)
